@@ -160,7 +160,7 @@ Fixpoint parse_digits (s : str) (acc : N) : option N :=
   end.
 (** Rust [<uN as FromStr>]: optional '+', at least one digit, overflow is an error. *)
 Definition parse_unsigned (bound : N) (s : str) : option N :=
-  let d := match s with 43 :: r => r | _ => s end in
+  let d := match s with b :: r => if b =? 43 then r else s | [] => s end in
   match d with
   | [] => None
   | _ => match parse_digits d 0 with
@@ -170,7 +170,10 @@ Definition parse_unsigned (bound : N) (s : str) : option N :=
   end.
 (** Rust [<iN as FromStr>]: optional '+' or '-', at least one digit, range checked. *)
 Definition parse_signed (bits : Z) (s : str) : option Z :=
-  let '(neg, d) := match s with 43 :: r => (false, r) | 45 :: r => (true, r) | _ => (false, s) end in
+  let '(neg, d) := match s with
+                   | b :: r => if b =? 43 then (false, r) else if b =? 45 then (true, r) else (false, s)
+                   | [] => (false, s)
+                   end in
   match d with
   | [] => None
   | _ => match parse_digits d 0 with
@@ -187,19 +190,21 @@ Fixpoint parse_digits_us (s : str) (acc : N) : option N :=
               else if is_digit b then parse_digits_us r (acc * 10 + (b - 48)) else None
   end.
 Definition parse_biguint (s : str) : option N :=
-  let d := match s with 43 :: r => r | _ => s end in
+  let d := match s with b :: r => if b =? 43 then r else s | [] => s end in
   match d with
   | [] => None
   | b :: _ => if b =? 95 then None else parse_digits_us d 0
   end.
 (** [BigInt::from_str]: optional '-' (not followed by '+'), then as [BigUint]. *)
 Definition parse_bigint (s : str) : option Z :=
+  let pos := match parse_biguint s with Some n => Some (Z.of_N n) | None => None end in
   match s with
-  | 45 :: r => match r with
-               | 43 :: _ => None
-               | _ => match parse_biguint r with Some n => Some (- Z.of_N n)%Z | None => None end
-               end
-  | _ => match parse_biguint s with Some n => Some (Z.of_N n) | None => None end
+  | b :: r =>
+      if b =? 45 then
+        if match r with c :: _ => c =? 43 | [] => false end then None
+        else match parse_biguint r with Some n => Some (- Z.of_N n)%Z | None => None end
+      else pos
+  | [] => pos
   end.
 
 (** [to_string] of an unsigned integer: no sign, no leading zeros. *)
@@ -956,6 +961,67 @@ with variants_wf (l : variants) : bool :=
   match l with Vnil => true | Vcons _ f r => fields_wf f && variants_wf r end
 with tvariants_wf (l : tvariants) : bool :=
   match l with TVnil => true | TVcons _ _ f r => fields_wf f && tvariants_wf r end.
+
+(* ------------------------------------------------------------------ side conditions of the converse direction *)
+Definition bytes_ok (bs : list N) : bool := forallb (fun b => b <? 256) bs.
+Fixpoint nodup_str (l : list str) : bool :=
+  match l with [] => true | x :: r => negb (existsb (str_eqb x) r) && nodup_str r end.
+Fixpoint nf_names (l : nfields) : list str := match l with NFnil => [] | NFcons n _ r => n :: nf_names r end.
+Fixpoint v_names (l : variants) : list str := match l with Vnil => [] | Vcons n _ r => n :: v_names r end.
+Fixpoint tv_names (l : tvariants) : list str := match l with TVnil => [] | TVcons _ n _ r => n :: tv_names r end.
+
+(** What [derive(SchemaType)] guarantees and the printed JSON needs in order to be read back:
+    no struct repeats a field name, no enum repeats a variant name, an enum has at most 65536
+    variants (more cannot be written), array sizes are u32 (as in the Rust type). *)
+Fixpoint ty_distinct_fields (t : ty) : bool :=
+  match t with
+  | TPair a b => ty_distinct_fields a && ty_distinct_fields b
+  | TList _ e | TSet _ e => ty_distinct_fields e
+  | TMap _ k v => ty_distinct_fields k && ty_distinct_fields v
+  | TArray n e => (n <? 2 ^ 32) && ty_distinct_fields e
+  | TByteArray n => n <? 2 ^ 32
+  | TStruct f => fields_df f
+  | TEnum vs => nodup_str (v_names vs) && (N.of_nat (variants_len vs) <=? 65536) && variants_df vs
+  | TTaggedEnum vs => nodup_str (tv_names vs) && tvariants_df vs
+  | _ => true
+  end
+with fields_df (f : fields) : bool :=
+  match f with
+  | FNamed l => nodup_str (nf_names l) && nfields_df l
+  | FUnnamed l => tys_df l
+  | FNone => true
+  end
+with nfields_df (l : nfields) : bool :=
+  match l with NFnil => true | NFcons _ t r => ty_distinct_fields t && nfields_df r end
+with tys_df (l : tys) : bool :=
+  match l with TSnil => true | TScons t r => ty_distinct_fields t && tys_df r end
+with variants_df (l : variants) : bool :=
+  match l with Vnil => true | Vcons _ f r => fields_df f && variants_df r end
+with tvariants_df (l : tvariants) : bool :=
+  match l with TVnil => true | TVcons _ _ f r => fields_df f && tvariants_df r end.
+
+(** no LEB128 component: then [to_json] accepts exactly one byte string per value *)
+Fixpoint ty_no_leb (t : ty) : bool :=
+  match t with
+  | TULeb128 _ | TILeb128 _ => false
+  | TPair a b => ty_no_leb a && ty_no_leb b
+  | TList _ e | TSet _ e | TArray _ e => ty_no_leb e
+  | TMap _ k v => ty_no_leb k && ty_no_leb v
+  | TStruct f => fields_no_leb f
+  | TEnum vs => variants_no_leb vs
+  | TTaggedEnum vs => tvariants_no_leb vs
+  | _ => true
+  end
+with fields_no_leb (f : fields) : bool :=
+  match f with FNamed l => nfields_no_leb l | FUnnamed l => tys_no_leb l | FNone => true end
+with nfields_no_leb (l : nfields) : bool :=
+  match l with NFnil => true | NFcons _ t r => ty_no_leb t && nfields_no_leb r end
+with tys_no_leb (l : tys) : bool :=
+  match l with TSnil => true | TScons t r => ty_no_leb t && tys_no_leb r end
+with variants_no_leb (l : variants) : bool :=
+  match l with Vnil => true | Vcons _ f r => fields_no_leb f && variants_no_leb r end
+with tvariants_no_leb (l : tvariants) : bool :=
+  match l with TVnil => true | TVcons _ _ f r => fields_no_leb f && tvariants_no_leb r end.
 
 (* ------------------------------------------------------------------ well-formedness of JSON inputs *)
 (** What a [serde_json::Value] in memory always satisfies and the model's lists do not: strings are
